@@ -444,6 +444,9 @@ structure Quirks where
   parseRowsByIndex : Bool := false
   /-- numeric fallbacks convert `T(x)` without checking that `x` fits `T` -/
   noRangeGuard : Bool := false
+  /-- `validateParsableTraits` marks a repeated constant TEXT whatever the two traits' types
+  (/repo 7793249, before 42de8c1) -/
+  repeatIgnoresType : Bool := false
   deriving DecidableEq, Repr
 
 /-- one `case Owner: return <constant>` row of a trait -/
@@ -459,6 +462,9 @@ structure TraitDesc where
   fam : Family
   parsable : Bool
   rows : List TraitRow
+  /-- position of the column in the declaration: the order in which `validateParsableTraits` walks
+  the traits (it runs BEFORE `sort.Sort(traits)`) -/
+  col : Nat := 0
   deriving Repr
 
 inductive GenFailure where
@@ -547,7 +553,7 @@ def genTraits (q : Quirks) (o : Options) (cols : List TraitCol) (vs : List Value
     else
       let ts := (List.range cols.length).zip cols |>.map (fun (j, c) =>
         ({ name := c.name, ty := c.ty, fam := c.fam, parsable := o.parsable.contains c.name,
-           rows := (rowsOf vs j c.ty).filter (keepRow q vs) } : TraitDesc))
+           rows := (rowsOf vs j c.ty).filter (keepRow q vs), col := j } : TraitDesc))
       if !parsableUnique first ts then .error .parsableNotUnique
       else .ok (sortTraits ts)
 
@@ -561,24 +567,43 @@ structure GenFull where
 def TraitDesc.instanceOf (t : TraitDesc) (v : Value) : Option TraitRow :=
   t.rows.find? (fun r => r.owner.name == v.name)
 
+/-- BEGIN repeat marking (`TraitInstance.repeatsParseKey`, set by `validateParsableTraits`).
+The instance `r` of parsable trait `t` is left out of its value's `case` in the `Parse` switch
+(`TraitDesc.InstanceOf` returns nil) when a parsable trait EARLIER IN COLUMN ORDER carries, on the
+same enum value, a constant with the same value text and an identical (default) type: it already is
+a key of that value. Both constants stand on the same definition line, so their texts are taken the
+same way (`rowText` with the same `isFirst`); the model identifies a constant by its dynamic type
+and scalar, and two constants of one type written with the same text are the same scalar, so the
+test is equality of `Dyn`. A constant of ANOTHER type with the same text (`Tint(0)` next to `0`) is
+a different key of the switch on an `any` and stays. The pinned rule (`repeatIgnoresType`) compared
+the texts only. -/
+def repeatsParseKey (q : Quirks) (ts : List TraitDesc) (first : Option Value) (t : TraitDesc) (r : TraitRow) : Bool :=
+  ts.any (fun t' => t'.parsable && decide (t'.col < t.col) && t'.rows.any (fun r' =>
+    r'.owner.name == r.owner.name &&
+      (if q.repeatIgnoresType then
+        let isFirst := first.any (fun f => f.name == r.owner.name)
+        rowText t'.ty isFirst r'.dyn.v == rowText t.ty isFirst r.dyn.v
+       else r'.dyn == r.dyn)))
+/- END repeat marking -/
+
 /-- the constant a parsable trait contributes to the `case` of the `j`-th value -/
-def traitCaseOne (q : Quirks) (j : Nat) (v : Value) (t : TraitDesc) : Except GenFailure (List Dyn) :=
+def traitCaseOne (q : Quirks) (ts : List TraitDesc) (first : Option Value) (j : Nat) (v : Value) (t : TraitDesc) : Except GenFailure (List Dyn) :=
   if q.parseRowsByIndex then
     match t.rows[j]? with
     | some r => .ok [r.dyn]
     | none => .error .templateIndex
   else
     match t.instanceOf v with
-    | some r => .ok [r.dyn]
+    | some r => if repeatsParseKey q ts first t r then .ok [] else .ok [r.dyn]
     | none => .ok []
 
 /-- the trait constants of the `case` of the `j`-th value -/
-def traitCaseConsts (q : Quirks) (ts : List TraitDesc) (j : Nat) (v : Value) : Except GenFailure (List Dyn) :=
-  ((ts.filter (fun t => t.parsable)).mapM (traitCaseOne q j v)).map List.flatten
+def traitCaseConsts (q : Quirks) (ts : List TraitDesc) (first : Option Value) (j : Nat) (v : Value) : Except GenFailure (List Dyn) :=
+  ((ts.filter (fun t => t.parsable)).mapM (traitCaseOne q ts first j v)).map List.flatten
 
 def parseCases (q : Quirks) (ts : List TraitDesc) (vs : List Value) : Except GenFailure (List ParseCase) :=
   ((List.range vs.length).zip vs).mapM (fun (j, v) =>
-    (traitCaseConsts q ts j v).map (fun cs => (⟨Dyn.ofString v.name :: cs, v⟩ : ParseCase)))
+    (traitCaseConsts q ts vs.head? j v).map (fun cs => (⟨Dyn.ofString v.name :: cs, v⟩ : ParseCase)))
 
 /-- duplicate constants among the cases of one generated `switch` = compile error -/
 def hasDupCase (g : GenFull) : Bool :=
